@@ -22,8 +22,10 @@ TEXT = {
        "(no_fuel, compact_no_fuel, skip_no_fuel, compact_skip_no_fuel, async_*_skip_no_fuel, iter_skip_no_fuel), hence read_value_or_error / compact_read_value_or_error / skip_count_or_error; every successful sub-read "
        "consumes input (read_progress); what a successful read builds is bounded by 3 x input length (+1) (read_weight_linear, compact_read_weight_linear); a successful read never depends on bytes after those it consumed "
        "(read_extends, compact_read_extends) and therefore every strict prefix of the encoding of any well-typed value, structs included, is rejected with an error by the readers (prefix_rejected, compact_prefix_rejected) and by the in-memory skippers (skip_extends, skip_prefix_rejected, compact_skip_prefix_rejected).",
-  note="Scope: the runtime readers and skippers only. Emitted (generated) decoders, their with_capacity from wire counts and their recursion depth, and the async readers under chunked delivery are handled by the emitted-code and async "
-       "properties of this framework and are NOT claimed here. Allocation: read_weight_linear is an ok-path, model-level bound on the value the interpreter builds (one Vec slot per node, one copy per payload byte; pilota's "
+  note="Theorems: the runtime readers and skippers. Emitted (generated) decoders are covered by the second stream of this check (C09gen), by observation and T1 against the template model, not by a totality theorem: "
+       "adversarial mutations of valid encodings and injected unknown fields under binary, LE and compact, in memory and asynchronously with random chunking, on plain and keep_unknown_fields builds, with a peak-allocation "
+       "oracle and nesting bombs on a 2 MiB stack. Known findings there (reported as KNOWN-FINDING, each identified by its panic site / abort call site): D10 no depth bound in emitted recursive decode, D34 async decoders "
+       "pre-allocate from the wire count, D37 retention under compact reads out of bounds, and D12 / D29 as they appear on byte strings. Allocation: read_weight_linear is an ok-path, model-level bound on the value the interpreter builds (one Vec slot per node, one copy per payload byte; pilota's "
        "readers themselves only split the input); allocation on error paths and the Vec growth factor are only observed, by the counting allocator of the T1 stream (peak live bytes per request <= 512 x input + 256 KiB) — partial, "
        "named alloc_linear_partial. Stack: the model bounds recursion depth by 3*len+3; real stack frames are not modelled; nesting bombs up to depth 300 run in T1 on the harness's worker thread. The unchecked reader is not a safe "
        "decoder and is excluded (its contract violations are an explicit panic class of the model). Strict-prefix rejection is also proved for the in-memory skippers (skip_prefix_rejected, compact_skip_prefix_rejected); for the async skippers it is checked by T1 (pfx verb) only.",
